@@ -354,7 +354,7 @@ class CFG:
             return False
         return self.feasible_reach(None, cut_pred, lambda a: True, accept=accept, start=start)
 
-    def returned_values_from(self, start):
+    def returned_values_from(self, start, init_facts=None):
         """Values returned on the consistent paths that start in block `start` (its own assignments included):
         integers (enumerators by value), None for a value that is not a known constant."""
         from . import query
@@ -370,7 +370,7 @@ class CFG:
                         cv = e.const_value()
                         vals.add(cv if cv is not None else fd.get("=" + render(e)))
             return False
-        self.feasible_reach(None, lambda lit, b, i: False, lambda a: True, start=start, accept=accept)
+        self.feasible_reach(None, lambda lit, b, i: False, lambda a: True, start=start, accept=accept, init_facts=init_facts)
         return vals
 
     def values_at_return(self, ret, init_facts=None):
